@@ -89,6 +89,8 @@ type FuncCtx struct {
 	pendingQueries []pendingQ
 	spec           *specCtx
 	clauseErr      string
+	aliases        map[types.Object]ast.Expr
+	aliasDepth     int
 	allocs         map[string][]string
 	axiomsDone     map[string]bool
 	locked         bool
